@@ -11,12 +11,14 @@ PROP = {
         "masters <= 16384 per cluster",
     ],
     "gaps": [
-        "the reachable-state theorem `forall s, Reachable s -> forall c in s.clusters, PartitionView (clusterView ..)` is not assembled yet: proved so far are the range-list layer (compact/merge keep the slot set); the invariants SlotInv/PosInv/TwinInv are *evaluated* on every visited state (driver op inv) but their preservation proofs are in progress",
+        "explicit hypothesis PlanBound: every cluster of every intermediate state has at most 16384 masters (necessary: with more masters the code cuts zero-length ranges, DESIGN F11)",
+        "ordered-proxy mode (enable_ordered_proxy = true) is not modelled; the quantifier of the property includes it",
+        "the per-proxy theorem is stated on the projection proxyOfView of a partition view; that the union over all proxies of their local master ranges is the same partition (union_local_partition_cluster) needs proxy-address uniqueness from ResInv (C12), not yet combined",
     ],
 }
 
 CHECK = {
-    "text": "partial: Lean theorems for the range-list layer (compact / merge_another keep the slot set and produce normal form) over all inputs; the full partition theorem over all reachable broker states is in progress. Tie to the code: the hand-written broker model (every MetaStore mutator and query) is replayed against the real MetaStore on ~70k lines per run (full canonical store + digest of every served view for limits 0..2 after every op) and the partition oracle is evaluated on every served view for limits 0..3.",
+    "text": "Proved in Lean for every operation list (any order of create/scale/commit/failover/balance/config/delete, any allocation choice), every intermediate state, every migration limit: the store invariants PosInv/TwinInv/SlotInv hold and every served whole-cluster view is a PartitionView (each slot exactly one owner among stable+migrating ranges of masters, replicas own nothing, every migrating range has exactly one importing twin with identical range/epoch/addresses on the destination master); every per-proxy view is the projection of such a view and owns each slot once. Hypothesis: at most 16384 masters per cluster. Tie to the code: the hand-written broker model (every MetaStore mutator and query) is replayed against the real MetaStore on ~70k lines per run (full canonical store + digest of every served view for limits 0..2 after every op) and the partition oracle is evaluated on every served view for limits 0..3.",
     "design_ref": "§6 C01",
     "note": "Trusted: Lean kernel; hand-written broker model (validated differentially each run); generated chunk index tables; allocation choices taken from the implementation and checked against the model's allowed set; ordered-proxy mode unmodelled.",
     "technique": "Lean 4 invariant proofs over a broker state-machine model + differential correspondence with the real MetaStore",
